@@ -515,6 +515,197 @@ def gen_sampled(rng, quick):
 
 
 # --------------------------------------------------------------------------
+# first-contact suite: k sessions meet a store (or a domain) that nobody has
+# opened yet; a barrier at the first statement of the check-then-insert window
+# makes them overlap inside it
+
+NEWU = "n@example.com"
+DEFAULTS = ["INBOX", "Sent", "Drafts", "Trash", "Spam"]
+
+
+def first_ops(sc):
+    """sc: dict(name, sessions=[("D", sep)|("L", sep)], point, prepare). -> ops, barrier pos"""
+    ops = []
+    rcpt = NEWU
+    if sc["prepare"] == "domain":
+        rcpt = "n@fresh.example"
+        ops.append({"op": "gate_install_shared"})
+        if any(s[1] for s in sc["sessions"]):
+            ops.append({"op": "gate_install_shared", "separate_mgr": True})
+    else:
+        # the domain exists (another user of it logs in first)
+        ops += [{"op": "open", "conn": "c0"},
+                {"op": "send", "conn": "c0", "data": "i0 LOGIN o@example.com pw\r\n", "until": "tag:i0"}]
+    if sc["prepare"] == "schema_empty":
+        # the store file exists with its schema and an EMPTY mailboxes table; no handle is cached
+        ops += [{"op": "open", "conn": "c1"},
+                {"op": "send", "conn": "c1", "data": "i1 LOGIN %s pw\r\n" % NEWU, "until": "tag:i1"},
+                {"op": "close", "conn": "c1"}, {"op": "close", "conn": "c0"},
+                {"op": "sql_exec", "store": "user_db_2", "q": "DELETE FROM mailboxes"},
+                {"op": "restart"}]
+    if sc["prepare"] != "domain":
+        ops.append({"op": "hook_all"})
+    ths = []
+    for i, (kind, sep) in enumerate(sc["sessions"]):
+        if kind == "D":
+            cn = "l%d" % i
+            ops.append({"op": "lmtp_open", "conn": cn, "separate_mgr": bool(sep)})
+            for line in ("LHLO x", "MAIL FROM:<a@example.com>", "RCPT TO:<%s>" % rcpt, "DATA"):
+                ops.append({"op": "send", "conn": cn, "data": line + "\r\n", "until": "lmtp:1"})
+            ths.append({"conn": cn, "steps": [{"data": msg("f-%d" % i, rcpt) + ".\r\n", "until": "lmtp:1", "timeout_ms": 25000}]})
+        else:
+            cn = "m%d" % i
+            ops.append({"op": "open", "conn": cn})
+            ths.append({"conn": cn, "steps": [{"data": "t LOGIN %s pw\r\n" % rcpt, "until": "tag:t", "timeout_ms": 25000}]})
+    ops.append({"op": "barrier", "point": sc["point"], "need": len(ths), "wait_ms": 1200, "threads": ths})
+    pos = len(ops) - 1
+    ops.append({"op": "dump"})
+    for sid in (1, 2, 3):
+        ops.append(subjects_query("user_db_%d" % sid))
+    return ops, pos, rcpt
+
+
+def judge_first(chk, sc, res, stats):
+    """-> (trouble, violations, observed tuple for the model comparison)"""
+    if res.get("crashed"):
+        return "driver crashed: %s" % res.get("stderr", "")[-300:], [], None
+    ops, pos, rcpt = first_ops(sc)
+    obs = res["obs"]
+    if len(obs) != len(ops):
+        return "driver returned %d observations for %d ops" % (len(obs), len(ops)), [], None
+    for o in obs[:pos]:
+        if o.get("error") or "panic" in o:
+            return "preparation failed: %s" % json.dumps(o)[:200], [], None
+    bo = obs[pos]
+    if "threads" not in bo:
+        return "barrier op failed: %s" % json.dumps(bo)[:200], [], None
+    viol, rep = [], []
+    for i, ((kind, sep), rs) in enumerate(zip(sc["sessions"], bo["threads"])):
+        bad = [r for r in rs if r["how"] not in ("ok", "")]
+        if bad:
+            return "a session step did not complete: %s" % json.dumps(bad)[:300], [], None
+        if kind == "D":
+            line = rs[-1]["recv"].strip()
+            ok = line[:1] == "2"
+        else:
+            line = next((l for l in rs[-1]["recv"].split("\r\n") if l.startswith("t ")), "")
+            ok = line.startswith("t OK")
+        rep.append(1 if ok else 0)
+        if not ok:
+            viol.append("%s %d (%s) meets a %s that nobody has opened yet, together with %d other session(s) (%d of them reached the %s statement together), and is refused although it succeeds on its own: %s" % (
+                "first delivery" if kind == "D" else "LOGIN", i, "second DBManager" if sep else "server's DBManager",
+                "new domain" if sc["prepare"] == "domain" else ("store with an empty mailboxes table" if sc["prepare"] == "schema_empty" else "brand-new user's store"),
+                len(sc["sessions"]) - 1, bo.get("arrived", 0), sc["point"], line[:220]))
+    dump = obs[pos + 1].get("stores", {})
+    users = {("%s@%s" % (u[1], u[2])): u[0] for u in dump.get("shared", {}).get("users", [])}
+    doms = [d[1] for d in dump.get("shared", {}).get("domains", [])]
+    if len(set(doms)) != len(doms):
+        viol.append("the domains table holds a domain twice: %r" % (doms,))
+    uid = users.get(rcpt)
+    st = dump.get("user_db_%s" % uid, {}) if uid else {}
+    names = sorted(m[2] for m in st.get("mailboxes") or [])
+    nd = sum(1 for (k, _) in sc["sessions"] if k == "D")
+    inbox = [m for m in st.get("mailboxes") or [] if m[2] == "INBOX"]
+    links = sorted(l[3] for l in st.get("links") or [] if inbox and l[2] == inbox[0][0])
+    if all(rep):
+        if names != sorted(DEFAULTS):
+            viol.append("after %d simultaneous first contacts the store of %s holds the mailboxes %r (expected the five defaults once each)" % (len(rep), rcpt, names))
+        if links != list(range(1, nd + 1)) or (inbox and inbox[0][4] != nd + 1):
+            viol.append("after %d acknowledged first deliveries INBOX holds UIDs %r with UIDNEXT %s" % (nd, links, inbox[0][4] if inbox else None))
+    place = {}
+    for o, sid in zip(obs[-3:], (1, 2, 3)):
+        for r in o.get("rows") or []:
+            place.setdefault(r[0], []).append(("user_db_%d" % sid, r[1], r[2]))
+    for i, ((kind, sep), r) in enumerate(zip(sc["sessions"], rep)):
+        if kind == "D":
+            locs = place.get("f-%d" % i, [])
+            if r == 1 and len(locs) != 1:
+                viol.append("first delivery %d was acknowledged and is stored at %r" % (i, locs))
+            if r == 0 and locs:
+                viol.append("first delivery %d was refused and is stored at %r" % (i, locs))
+    stats["first_arrived"].append(bo.get("arrived", 0))
+    observed = (rep, len(names), inbox[0][4] if inbox else 0, len(links), 1 if links == list(range(1, len(links) + 1)) else 0)
+    return None, viol, observed
+
+
+def eval_first_cases(cases):
+    """cases: list of (sc, observed). Model: everybody counts first, then each runs to its reply."""
+    body = C.COQ_CASE_HEADER + "From Raven Require Import Model.Store Model.Ops Model.Conc.\nLocal Open Scope Z_scope.\n"
+    items = []
+    for sc, _ in cases:
+        k = len(sc["sessions"])
+        ps = ["(PFirstDeliver INBOX 0 %d)" % (i + 1) if kind == "D" else "(PLogin %d)" % (i + 1) for i, (kind, _) in enumerate(sc["sessions"])]
+        sch = list(range(k)) + [i for i in range(k) for _ in range(8)]
+        items.append("(%s, [%s]%%nat)" % (C.coq_list(ps), ";".join(str(x) for x in sch)))
+    body += "Definition cases : list (list prog * list tid) := [\n%s].\n" % ";\n".join(items)
+    body += "Definition res := Eval vm_compute in map eval_first cases.\nPrint res.\n"
+    rc, log = C.coq_eval_cases(PID + "_first", body)
+    if rc != 0:
+        return None, log
+    txt = C.parse_coq_list_out(log, "res")
+    if txt is None:
+        return None, log
+    out = []
+    for m in re.finditer(r"\(\s*\[([^\]]*)\]\s*,\s*(-?\d+)\s*,\s*(-?\d+)\s*,\s*(-?\d+)\s*,\s*(-?\d+)\s*\)", txt.replace("%Z", "")):
+        out.append(([int(x) for x in m.group(1).split(";") if x.strip()], int(m.group(2)), int(m.group(3)), int(m.group(4)), int(m.group(5))))
+    return (out if len(out) == len(cases) else None), log
+
+
+def first_scenarios(rng, quick):
+    base = [
+        {"name": "two_managers", "sessions": [["D", False], ["D", True]], "point": "N", "prepare": "new"},
+        {"name": "one_manager", "sessions": [["D", False], ["D", False], ["L", False]], "point": "N", "prepare": "new"},
+        {"name": "mixed", "sessions": [["D", True], ["L", False], ["D", True], ["D", False]], "point": "N", "prepare": "new"},
+        {"name": "schema_empty_two_managers", "sessions": [["D", False], ["D", True]], "point": "N", "prepare": "schema_empty"},
+        {"name": "schema_empty_one_manager", "sessions": [["D", False], ["L", False], ["D", False]], "point": "N", "prepare": "schema_empty"},
+        {"name": "new_domain_one_manager", "sessions": [["D", False], ["D", False]], "point": "D", "prepare": "domain"},
+        {"name": "new_domain_two_managers", "sessions": [["D", False], ["D", True]], "point": "D", "prepare": "domain"},
+    ]
+    extra = []
+    for _ in range(0 if quick else 12):
+        k = rng.choice([2, 3, 4])
+        extra.append({"name": "random", "sessions": [[rng.choice(["D", "D", "L"]), rng.random() < 0.5] for _ in range(k)], "point": "N",
+                      "prepare": rng.choice(["new", "new", "schema_empty"])})
+    for sc in extra:
+        if not any(s[0] == "D" for s in sc["sessions"]):
+            sc["sessions"][0][0] = "D"
+        if sc["prepare"] == "schema_empty":
+            pass
+    return base + extra
+
+
+def run_first(chk, stats):
+    scs = first_scenarios(chk.rng, chk.tier == "quick")
+    ress = C.run_many([first_ops(sc)[0] for sc in scs], workers=6, timeout=300)
+    cases = []
+    for sc, res in zip(scs, ress):
+        trouble, viol, observed = judge_first(chk, sc, res, stats)
+        if trouble:
+            res = C.run_ops(first_ops(sc)[0], timeout=300)
+            trouble, viol, observed = judge_first(chk, sc, res, stats)
+        if trouble:
+            stats["trouble"] += 1
+            chk.notes.append("first-contact scenario %s skipped: %s" % (sc["name"], trouble[:200]))
+            continue
+        stats["first"] += 1
+        for v in viol[:2]:
+            stats["violations"] += 1
+            chk.violation("first contact (%s): %s" % (sc["name"], v), {"suite": "first", "scenario": sc})
+        if sc["prepare"] != "domain":
+            cases.append((sc, observed))
+    if cases:
+        evs, log = eval_first_cases(cases)
+        if evs is None:
+            chk.broken_obligation("in-Coq evaluation of the C08 first-contact cases failed:\n" + log[-1500:])
+            return
+        for (sc, observed), ev in zip(cases, evs):
+            if tuple(ev) == tuple(observed):
+                stats["first_agree"] += 1
+            else:
+                stats["pending_broken"].append(("correspondence first-contact no longer checks: scenario %s: implementation (replies, mailboxes, INBOX uid_next, messages, uids gap-free) = %r, model eval_first = %r" % (sc["name"], observed, ev),
+                                                {"suite": "first", "scenario": sc, "observed": observed, "model": ev}))
+
+# --------------------------------------------------------------------------
 
 def corpus_cases():
     out = []
@@ -529,7 +720,8 @@ def run(chk):
     quick = chk.tier == "quick"
     rng = chk.rng
     stats = {"known": {}, "diff": 0, "agree": 0, "clean": 0, "trouble": 0, "violations": 0, "grants": 0,
-             "sampled_msgs": 0, "sampled_acked": 0, "sampled_fetch_checked": 0, "pending_broken": []}
+             "sampled_msgs": 0, "sampled_acked": 0, "sampled_fetch_checked": 0, "pending_broken": [],
+             "first": 0, "first_agree": 0, "first_arrived": []}
     # ---- 1. witnesses of the listed findings (deterministic replay)
     corp = corpus_cases()
     n = run_gated_batches(chk, [[cs for _, cs in corp]], stats, "corpus")
@@ -542,6 +734,8 @@ def run(chk):
     bs = 18
     batches = [allc[i:i + bs] for i in range(0, len(allc), bs)]
     n += run_gated_batches(chk, batches, stats, "gen")
+    # ---- 2b. first contact with a store / a domain (barrier inside the check-then-insert window)
+    run_first(chk, stats)
     # ---- 3. sampled real concurrency
     n_s = 4 if quick else 40
     sampled_failures = {}
@@ -597,6 +791,9 @@ def run(chk):
     chk.cov["cases_outside_finding_classes"] = stats["clean"]
     chk.cov["known_class_hits"] = stats["known"]
     chk.cov["harness_trouble"] = stats["trouble"]
+    chk.cov["first_contact_scenarios"] = stats["first"]
+    chk.cov["first_contact_agree_with_model"] = stats["first_agree"]
+    chk.cov["first_contact_sessions_inside_window_together"] = stats["first_arrived"]
     chk.cov["sampled_scenarios"] = n_s
     chk.cov["sampled_messages"] = stats["sampled_msgs"]
     chk.cov["sampled_acknowledged"] = stats["sampled_acked"]
@@ -626,6 +823,15 @@ def replay(path):
         for x in v:
             print("spec violation:", x)
         return 1 if (v or (evs and evs[0][0] != 1)) else 0
+    if d.get("suite") == "first" and d.get("scenario"):
+        sc = d["scenario"]
+        stats = {"first_arrived": []}
+        tr, v, o = judge_first(None, sc, C.run_ops(first_ops(sc)[0], timeout=300), stats)
+        print("trouble:", tr)
+        print("observed (replies, mailboxes, INBOX uid_next, messages, gap-free):", o, "sessions inside the window together:", stats["first_arrived"])
+        for x in v:
+            print("violation:", x)
+        return 1 if v else 0
     if d.get("suite") == "sampled" and d.get("scenario"):
         class Dummy:
             pass
